@@ -36,7 +36,8 @@ EXPLANATION = (
     "(R8) a parameter whose member is created on demand "
     "(`if( !p.f ) p.f = new ..`) is a reference or pointer, so that the aggregate created for the first referrer is the one "
     "the next referrer is added to. "
-    "(R1b) every lazyRefs member container changed during the per-attribute pass is emptied in checkAnInvAttr before the calls that change it. (R4b) every instance that enters the cache is queued for inverse resolution under the same conditions, and the queue is drained (entry taken, removed, resolved) under `no instance is half-read`, with the depth counter bracketing exactly the attribute reads. (R8) a parameter whose member is created on demand is a reference or pointer. (R9) clients of the recursive super/subtype iterators take elements either through current() or through the value of next(), never both. Not decided: that the resulting sets equal the true referrers for every population (needs the run-time population).")
+    "(R1b) every lazyRefs member container changed during the per-attribute pass is emptied in checkAnInvAttr before the calls that change it. (R4b) every instance that enters the cache is queued for inverse resolution under the same conditions, and the queue is drained (entry taken, removed, resolved) under `no instance is half-read`, with the depth counter bracketing exactly the attribute reads. (R8) a parameter whose member is created on demand is a reference or pointer. (R9) clients of the recursive super/subtype iterators take elements either through current() or through the value of next(), never both. Not decided: that the resulting sets equal the true referrers for every population (needs the run-time population)."
+    " (R10) every loop of lazyRefs whose body inserts into a container (the subtype closure of the inverted entity, the inverse attributes of the supertypes, the candidate referrers) runs until its iterator is exhausted: no break, return or goto leaves it from the body.")
 
 
 def lazyfn(prog, name):
@@ -483,6 +484,51 @@ def r9_iterator_protocol(prog, res):
     res.floor("R9.iterator_protocol_consistent", "iterator objects whose elements are taken", n, 3)
 
 
+def r10_collection_walk_exhaustive(prog, res):
+    """A loop that walks a sub/supertype iterator (or any iterator) to collect what it yields into a set - its body inserts into a
+    container and computes no `found` result - must run until the iterator is empty: no break / return / goto leaves the loop from its
+    body.  In a subtype graph with a diamond the breadth-first iterator legitimately yields a descriptor once per path; stopping at the
+    first repeat drops every subtype still queued, and the referrers of those types never enter the inverse attribute."""
+    n = 0
+    for f in prog.all_functions():
+        if f.component != "cllazyfile" or "lazyRefs" not in f.name:
+            continue
+        for lp in f.walk():
+            if lp["k"] not in ("For", "While"):
+                continue
+            cond = lp["ch"][1] if lp["k"] == "For" else lp["ch"][0]
+            body = lp["ch"][-1]
+            if cond is None or body is None:
+                continue
+            inserts = [y for y in walk(body) if y["k"] == "Call" and (y.get("fn") or "").split("::")[-1] in ("insert", "push_back", "AddNode")]
+            # what is inserted comes from this loop's own iteration (a variable of the loop condition / increment occurs in the inserted
+            # value); an insert of the *outer* element inside an inner search loop is the search's `found` action, and may break
+            itervars = {y.get("d") for part in ([cond] + ([lp["ch"][2]] if lp["k"] == "For" and lp["ch"][2] is not None else []))
+                        for y in walk(part) if y["k"] == "Ref" and y.get("dk") in ("local", "param")}
+            inserts = [c for c in inserts if any(y["k"] == "Ref" and y.get("d") in itervars for a in call_args(c) for y in walk(a))]
+            if not inserts:
+                continue
+            # a search loop assigns a result that is read after the loop, or returns a value: not a collection loop
+            exits = []
+            for y in walk(body):
+                if y["k"] in ("Break", "Return", "Goto"):
+                    # a break that belongs to a nested loop / switch stays inside this loop
+                    if y["k"] == "Break":
+                        owner = next((a for a in f.ancestors(y) if a["k"] in ("For", "While", "Do", "Switch")), None)
+                        if owner is not lp:
+                            continue
+                    exits.append(y)
+            n += 1
+            what = expr_str(cond)[:50]
+            res.add("R10.collection_walk_exhaustive", "R10|%s|%s|%s" % (f.relfile(), f.name.split("::")[-1], what), f.where(exits[0]) if exits else f.where(lp),
+                    not exits,
+                    "the collecting loop `%s` runs until its iterator is exhausted" % what if not exits else
+                    "the loop that collects into a container (`%s`) can be left through `%s` at line %s before the iterator is exhausted: "
+                    "whatever the iterator would still have yielded is missing from the collection (entity types whose referrers are then "
+                    "never considered for the inverse attribute)" % (what, exits[0]["k"].lower(), exits[0]["l"]))
+    res.floor("R10.collection_walk_exhaustive", "collecting loops in lazyRefs", n, 4)
+
+
 def run(prog, res, tier):
     r9_iterator_protocol(prog, res)
     r8_accumulator_shared(prog, res)
@@ -492,3 +538,4 @@ def run(prog, res, tier):
     r4_once(prog, res)
     r5_r6_collect(prog, res)
     r7_identity(prog, res)
+    r10_collection_walk_exhaustive(prog, res)
